@@ -15,7 +15,9 @@ Line protocol of the C20 model (one s-expression in, one out).
   (ws COM)                  -> T | F                          wsCom
   (pp E)                    -> STR
   (lexpp E)                 -> T | F        does `lex (pp E)` equal `toks E`
-  (ppcom COM)               -> (STR ...)                      lines of print_com
+  (ppcom COM)               -> STR                            the lines of print_com joined by newlines
+  (lex STR)                 -> (ok (TOK ...)) | err           TOK = (id x) | (num n) | (sym s)
+  (nameok x)                -> T | F
   (parsecond STR)           -> (ok E) | err
   (parsecom STR)            -> (ok COM) | err
   (eval E STATE)            -> (int n) | (bool T|F) | none
@@ -158,9 +160,17 @@ def handle (line : String) : String :=
     match exprOf e with
     | some e => toString (Sexp.ofBool (lex (pp e) == some (toks e)))
     | none => "bad-op"
+  | some (.list [.atom "lex", .atom s]) =>
+    match lex (dec s) with
+    | some ts => toString (Sexp.list [.atom "ok", .list (ts.map fun
+        | .id x => .list [.atom "id", .atom (enc x)]
+        | .num n => .list [.atom "num", Sexp.ofNat n]
+        | t => .list [.atom "sym", .atom (enc (String.ofList (tokChars t)))])])
+    | none => "err"
+  | some (.list [.atom "nameok", .atom x]) => toString (Sexp.ofBool (nameOK (dec x)))
   | some (.list [.atom "ppcom", c]) =>
     match comOf c with
-    | some c => toString (Sexp.list ((ppCom 0 c).map fun l => .atom (enc l)))
+    | some c => enc (ppCom c)
     | none => "bad-op"
   | some (.list [.atom "parsecond", .atom s]) =>
     match parseCond (dec s) with
